@@ -1,9 +1,121 @@
 import CotengraVerif.Driver.Util
+import CotengraVerif.Model.Slicer
 
 namespace Cotengra.Driver.C07
-open Lean Cotengra Cotengra.Driver
+open Lean Cotengra Cotengra.Driver Cotengra.Slicer
 
-/-- ops of property C07 (name them "c07.<op>") -/
-def handlers : List (String × Handler) := []
+def conOfJson (j : Json) : Except String Con := do
+  pure { involved := ← natList (← field j "involved"), legs := ← natList (← field j "legs"),
+         size := ← natOf (← field j "size"), flops := ← natOf (← field j "flops") }
+
+def sortNats (l : List Nat) : List Nat := l.foldl (fun acc x => insertSorted x acc) []
+
+def jCon (c : Con) : Json :=
+  jObj [("involved", jNats (sortNats c.involved)), ("legs", jNats (sortNats c.legs)),
+        ("size", jNat c.size), ("flops", jNat c.flops)]
+
+def jOptNat : Option Nat → Json
+  | none => Json.null
+  | some n => jNat n
+
+def insPair (x : Nat × Int) : List (Nat × Int) → List (Nat × Int)
+  | [] => [x]
+  | y :: t => if x.1 < y.1 then x :: y :: t else y :: insPair x t
+
+def jIDict (d : IDict) : Json :=
+  Json.arr ((d.foldl (fun acc x => insPair x acc) []).map fun (a, b) => Json.arr #[jNat a, jInt b]).toArray
+
+def jCosts (c : Costs) (full : Bool) : Json :=
+  let base := [("nslices", jNat c.nslices), ("flops", jInt c.flops), ("size", jOptNat c.size),
+               ("total_flops", jInt c.totalFlops), ("original_flops", jInt c.originalFlops)]
+  if full then
+    jObj (base ++ [("cons", jArr (c.cons.map jCon)), ("fred", jIDict c.fred), ("wred", jIDict c.wred),
+                   ("where", jArr ((c.wher.foldl (fun acc (x : Nat × List Nat) =>
+                      acc ++ [Json.arr #[jNat x.1, jNats (sortNats x.2)]]) []))),
+                   ("size_dict", jNats (sortNats (AL.keys c.sizeDict)))])
+  else jObj base
+
+/-- op `c07.remove`: build `ContractionCosts(cons, size_dict)` and apply `remove` along `removes`;
+    reports the full state after construction and after every removal, or the step that raised. -/
+def remove : Handler := fun j => do
+  let sd ← pairList (← field j "size_dict")
+  let cons ← (← arrOf (← field j "cons")).mapM conOfJson
+  let removes ← natList (← field j "removes")
+  let touch := match j.getObjVal? "touch" with | .ok (.bool b) => b | _ => false
+  match Costs.init cons sd with
+  | none => pure (jObj [("error", jStr "init")])
+  | some c0 =>
+    let rec go (c : Costs) (ixs : List Nat) (acc : List Json) : List Json × Option Nat :=
+      match ixs with
+      | [] => (acc, none)
+      | ix :: rest => match (if touch then c.touchAll else c).remove ix with
+        | none => (acc, some ix)
+        | some c' => go c' rest (acc ++ [jCosts c' true])
+    let (states, failed) := go c0 removes [jCosts c0 true]
+    pure (jObj [("states", jArr states), ("failed_at", jOptNat failed)])
+
+/-- op `c07.tree`: the contraction tuples of `from_contraction_tree` for the internal nodes of
+    the tree, children first -/
+def tree : Handler := fun j => do
+  let n ← netOf (← field j "net")
+  let rm ← natList (← field j "removed")
+  let t ← btOf (← field j "tree")
+  pure (jObj [("cons", jArr ((treeCons n rm t).map jCon)),
+              ("leaves", jNatss (t.internal.map (fun s => sortNats s.leaves)))])
+
+def targetsOf (j : Json) : Except String Targets := do
+  let sz := match j.getObjVal? "size" with | .ok (.num n) => some n.mantissa.toNat | _ => none
+  let sl := match j.getObjVal? "slices" with | .ok (.num n) => some n.mantissa.toNat | _ => none
+  let ov ← match j.getObjVal? "overhead" with
+    | .ok (.arr a) => match a.toList with
+      | [p, q] => do pure (some ((← natOf p), (← natOf q)))
+      | _ => throw "overhead must be [p,q]"
+    | _ => pure none
+  pure { size := sz, overhead := ov, slices := sl }
+
+def jRes : TrialRes → Json
+  | .ok key cost => jObj [("status", jStr "ok"), ("key", jNats key), ("cost", jCosts cost false)]
+  | .forbidden => jObj [("status", jStr "RuntimeError")]
+  | .keyError => jObj [("status", jStr "KeyError")]
+  | .valueError => jObj [("status", jStr "ValueError")]
+  | .badOracle => jObj [("status", jStr "bad-oracle")]
+
+/-- op `c07.search`: `SliceFinder(cons, size_dict, …)`, then one `trial` per entry of `picks`
+    (the oracle answers observed on the real run), then `best`. -/
+def search : Handler := fun j => do
+  let sd ← pairList (← field j "size_dict")
+  let cons ← (← arrOf (← field j "cons")).mapM conOfJson
+  let output ← natList (← field j "output")
+  let allowOuter ← natOf (← field j "allow_outer")
+  let tg ← targetsOf (← field j "targets")
+  let picks ← natListList (← field j "picks")
+  match Costs.init cons sd with
+  | none => pure (jObj [("error", jStr "init")])
+  | some c0 =>
+    let forb := forbiddenOf output sd allowOuter
+    let rec go (ps : List (List Nat)) (cache : Cache) (acc : List Json) : Cache × List Json × Bool :=
+      match ps with
+      | [] => (cache, acc, true)
+      | p :: rest =>
+        match trial forb tg p cache with
+        | (cache', .ok k c) => go rest cache' (acc ++ [jRes (.ok k c)])
+        | (cache', r) => (cache', acc ++ [jRes r], false)
+    let (cache, trials, allOk) := go picks [([], c0)] []
+    let b := if allOk then
+        match best tg cache with
+        | none => jObj [("status", jStr "ValueError")]
+        | some (k, c) => jObj [("status", jStr "ok"), ("key", jNats k), ("cost", jCosts c false)]
+      else jObj [("status", jStr "aborted")]
+    let minScore := match best tg cache with
+      | none => Json.null
+      | some (_, c) => let s := scorer tg c; Json.arr #[jInt s.1, jInt s.2.1, jInt s.2.2]
+    pure (jObj [("forbidden", jNats (sortNats forb)), ("trials", jArr trials),
+                ("cache", jArr (cache.map fun (k, c) =>
+                    jObj [("key", jNats k), ("cost", jCosts c false),
+                          ("valid", jBool (valid tg c))])),
+                ("best", b), ("min_score", minScore)])
+
+def handlers : List (String × Handler) :=
+  [("c07.remove", remove), ("c07.tree", tree), ("c07.search", search)]
 
 end Cotengra.Driver.C07
